@@ -10,7 +10,7 @@
      TableSoundW / TableExact / NoCaseAlias / full_name / Dec   Proofs/NameCompress.v *)
 From DV Require Import Base.Prelude Model.NameM.
 From DV Require Import Proofs.NameOrder Proofs.NameValid Proofs.NameRel Proofs.NameSucc.
-From DV Require Import Proofs.NameText Proofs.NameWire Proofs.NameProducers Proofs.NameCompress.
+From DV Require Import Proofs.NameText Proofs.NameWire Proofs.NameProducers Proofs.NameCompress Proofs.NameTok.
 Open Scope Z_scope.
 
 (* ---- _validate_labels decides exactly the DNS limits ---- *)
@@ -48,6 +48,28 @@ Theorem text_roundtrip_origin : forall (n : name) (origin : option name),
     else match origin with Some o => mk_name (n ++ o) | None => Ok n end.
 Proof. exact NameText.text_roundtrip_origin. Qed.
 Print Assumptions text_roundtrip_origin.
+
+(* ---- the zone-file path: Tokenizer.get() / get_name on the printed name ---- *)
+(* the printed form of any name over all 256 octet values is returned by the tokenizer as ONE
+   identifier token, whatever follows it (end of input or any delimiter: blank, newline, ';',
+   parentheses, quote), and get_name turns it back into the name *)
+Theorem tokenizer_identifier : forall (n : name) (rest : list Z),
+  AllBytes n -> token_end rest ->
+  tok_get_identifier (to_text n ++ rest) = Ok (to_text n, rest).
+Proof. exact NameTok.tokenizer_identifier. Qed.
+Print Assumptions tokenizer_identifier.
+
+Theorem tokenizer_name_roundtrip : forall (n : name) (rest : list Z),
+  Valid n -> AllBytes n -> token_end rest ->
+  tok_get_name (to_text n ++ rest) None = Ok n.
+Proof. exact NameTok.tokenizer_name_roundtrip. Qed.
+Print Assumptions tokenizer_name_roundtrip.
+
+Theorem tokenizer_name_roundtrip_origin : forall (n o : name) (rest : list Z),
+  Valid n -> AllBytes n -> token_end rest -> is_absolute o = true ->
+  tok_get_name (to_text n ++ rest) (Some o) = if is_absolute n then Ok n else mk_name (n ++ o).
+Proof. exact NameTok.tokenizer_name_roundtrip_origin. Qed.
+Print Assumptions tokenizer_name_roundtrip_origin.
 
 (* ---- wire, uncompressed: exact inverse at any offset inside any byte string ---- *)
 Theorem wire_roundtrip : forall (n : name) (pre post : list Z),
@@ -200,3 +222,7 @@ Proof. split; [|split]; intros k v []. Qed.
 Example ex_no_entry_above_3fff :
   exists f1, to_wire_compress ex_com1 None false (repeat 0 16384) [] = Ok (f1, []).
 Proof. eexists. vm_compute. reflexivity. Qed.
+
+Example ex_tok : tok_get_name (to_text ex_name ++ [32; 51; 48; 48]) None = Ok ex_name
+                 /\ token_end [32; 51; 48; 48] /\ token_end [].
+Proof. split; [vm_compute; reflexivity|]. split; [right; exists 32, [51; 48; 48]; auto|left; reflexivity]. Qed.
